@@ -1,343 +1,1735 @@
-"""probe: merged-state symbolic interpreter for a pure-numeric Python subset -> z3 terms"""
-import ast, inspect, textwrap, z3, operator
+"""Engine E2 -- astsmt: Python-AST -> z3 translation with value merging and shape forking.
 
-DEFAULT_BV = 32
-class Unsupported(Exception): pass
-class ReturnSignal(Exception): pass
+A small symbolic interpreter over the `ast` of functions *as found in the imported ioflo
+module* (source re-read with `inspect` in every process; nothing is cached between runs).
+It executes both sides of every symbolic branch and merges the values with `If`
+("merge values"), and forks DART-style on conditions whose two sides would leave a
+variable with a different *shape* (list length, scalar kind) -- `while n:` trip counts, a
+list grown under a symbolic condition ("fork shapes").  One call therefore yields a small
+set of `Path(assume, result)` pairs whose assumptions are checked to be exhaustive.
 
-def is_sym(v): return isinstance(v, z3.ExprRef)
-def to_bool(v):
-    if is_sym(v):
-        if z3.is_bool(v): return v
-        if z3.is_bv(v): return v != 0
-        if z3.is_int(v) or z3.is_real(v): return v != 0
-        raise Unsupported("truth of %r" % v)
-    if isinstance(v, (list, tuple)): return len(v) > 0
-    return bool(v)
+Python value        z3 sort
+int (bit ops)       BitVec(w), signed; every `+ - * << -x` emits a no-overflow side condition
+int (arithmetic)    Int
+exact rational      Real  (`%`, `//` by a fresh integer quotient + defining inequalities)
+float               FP(11,53), RNE, CPython semantics of < <= == != min max abs bool()
 
-def ite(c, a, b):
-    """merge two python-level values under condition c"""
-    if not is_sym(c): return a if c else b
-    if a is b: return a
+Anything outside the supported subset raises `Unsupported`; harnesses turn that into an
+INCONCLUSIVE obligation (never a silent skip).  `Session` keeps one solver alive
+(push/pop), times every check, applies the vacuity guards (premises satisfiable, a
+deliberately wrong oracle refutable) and the side-condition check, and assembles the result
+dict the runner expects for kind="e2" obligations.  `Session.validate` is the translator
+validation step: the translated term is evaluated on concrete inputs (substitute +
+simplify) and compared with calling the real function; a mismatch raises
+`TranslationMismatch` (the runner reports HARNESS-ERROR, exit 3).
+"""
+import ast
+import builtins
+import inspect
+import math
+import operator
+import struct
+import textwrap
+import time
+from fractions import Fraction
+
+import z3
+
+FP64 = z3.Float64()
+RNE = z3.RNE()
+
+
+class Unsupported(Exception):
+    """construct outside the translated subset -> obligation inconclusive"""
+
+
+class TranslationMismatch(Exception):
+    """translator validation failed: z3 term and real function disagree on a concrete input"""
+
+
+class PyRaise(Exception):
+    """the translated code raises on a concrete (non-symbolic) path"""
+    def __init__(self, exc):
+        Exception.__init__(self, repr(exc))
+        self.exc = exc
+
+
+class _NeedFork(Exception):
+    """internal: a shape difference under a symbolic condition; the enclosing `if` forks"""
+
+
+class _Poison:
+    def __repr__(self):
+        return "<possibly-unbound>"
+
+
+POISON = _Poison()
+
+
+# --------------------------------------------------------------------------- values
+
+def is_sym(v):
+    return isinstance(v, z3.ExprRef)
+
+
+def has_sym(v):
+    if is_sym(v) or isinstance(v, (SymObj, SymStr)):
+        return True
+    if isinstance(v, (list, tuple)):
+        return any(has_sym(x) for x in v)
+    if isinstance(v, dict):
+        return any(has_sym(x) for x in v.values())
+    return False
+
+
+def fp_val(c):
+    c = float(c)
+    if c != c:
+        return z3.fpNaN(FP64)
+    if c in (float("inf"), float("-inf")):
+        return z3.fpPlusInfinity(FP64) if c > 0 else z3.fpMinusInfinity(FP64)
+    n = int.from_bytes(struct.pack(">d", c), "big")
+    return z3.simplify(z3.fpBVToFP(z3.BitVecVal(n, 64), FP64))
+
+
+def exact_real(c):
+    if isinstance(c, float):
+        if c != c or c in (float("inf"), float("-inf")):
+            raise Unsupported("non-finite float in exact arithmetic")
+        c = Fraction(c)
+    if isinstance(c, Fraction):
+        return z3.RealVal(str(c))
+    return z3.RealVal(int(c))
+
+
+def to_py(v):
+    """z3 value (after simplify) -> python value; lists/tuples recursively"""
+    if isinstance(v, (list, tuple)):
+        return type(v)(to_py(x) for x in v)
+    if isinstance(v, SymStr):
+        return "".join(chr(to_py(c) & 0xff) if not isinstance(c, str) else c for c in v.chars)
+    if not is_sym(v):
+        return v
+    v = z3.simplify(v)
+    if z3.is_true(v):
+        return True
+    if z3.is_false(v):
+        return False
+    if z3.is_bv_value(v):
+        return v.as_signed_long()
+    if z3.is_int_value(v):
+        return v.as_long()
+    if z3.is_rational_value(v):
+        return Fraction(v.numerator_as_long(), v.denominator_as_long())
+    if z3.is_algebraic_value(v):
+        raise Unsupported("algebraic value")
+    if z3.is_fp_value(v):
+        if v.isNaN():
+            return float("nan")
+        if v.isInf():
+            return float("-inf") if v.isNegative() else float("inf")
+        bv = z3.simplify(z3.fpToIEEEBV(v))
+        return struct.unpack(">d", bv.as_long().to_bytes(8, "big"))[0]
+    raise Unsupported("not a value: %s" % v)
+
+
+def to_z3(c, sort):
+    """python value -> z3 value of the given sort"""
+    if sort == z3.BoolSort():
+        return z3.BoolVal(bool(c))
+    if sort == z3.IntSort():
+        return z3.IntVal(int(c))
+    if sort == z3.RealSort():
+        return exact_real(c)
+    if sort == FP64:
+        return fp_val(c)
+    if isinstance(sort, z3.BitVecSortRef):
+        return z3.BitVecVal(int(c), sort.size())
+    raise Unsupported("sort %s" % sort)
+
+
+def same_value(a, b):
+    """python-level equality used by validation/replay: NaN equals NaN, types of bool vs int matter"""
     if isinstance(a, (list, tuple)) and isinstance(b, (list, tuple)):
-        if len(a) != len(b): raise Unsupported("merge of different lengths")
-        return type(a)(ite(c, x, y) for x, y in zip(a, b))
-    if not is_sym(a) and not is_sym(b):
-        if type(a) == type(b) and a == b: return a
-        if isinstance(a, bool) and isinstance(b, bool):
-            return z3.If(c, z3.BoolVal(a), z3.BoolVal(b))
-        if a is None or b is None: raise Unsupported("merge with None")
-    sa, sb = coerce2(a, b)
-    return z3.If(c, sa, sb)
+        return len(a) == len(b) and all(same_value(x, y) for x, y in zip(a, b))
+    if isinstance(a, float) and isinstance(b, float) and a != a and b != b:
+        return True
+    if isinstance(a, bool) != isinstance(b, bool):
+        return False
+    return a == b
 
-def coerce2(a, b):
-    if is_sym(a) and not is_sym(b):
-        return a, lift(b, a)
-    if is_sym(b) and not is_sym(a):
-        return lift(a, b), b
-    if not is_sym(a) and not is_sym(b):
-        if isinstance(a, bool) and isinstance(b, bool): return z3.BoolVal(a), z3.BoolVal(b)
-        if isinstance(a, int) and isinstance(b, int):
-            return (z3.BitVecVal(a, DEFAULT_BV), z3.BitVecVal(b, DEFAULT_BV)) if DEFAULT_BV else (z3.IntVal(a), z3.IntVal(b))
-        raise Unsupported("both concrete %r %r" % (a, b))
-    if z3.is_bv(a) and z3.is_bv(b) and a.size() != b.size():
-        n = max(a.size(), b.size())
-        return (z3.SignExt(n - a.size(), a) if a.size() < n else a), (z3.SignExt(n - b.size(), b) if b.size() < n else b)
-    return a, b
 
-def lift(c, like):
-    if z3.is_bv(like): return z3.BitVecVal(int(c), like.size())
-    if z3.is_int(like): return z3.IntVal(int(c)) if float(c).is_integer() else z3.RealVal(str(c))
-    if z3.is_real(like): return z3.RealVal(str(c))
-    if z3.is_bool(like): return z3.BoolVal(bool(c))
-    raise Unsupported("lift")
+class SymObj:
+    """attribute-chain-as-variable: `self.parm.data.ovmax` is one symbolic input,
+    `self.es.value = v` one recorded output.  `factory(path)` supplies the initial value of
+    an attribute on first read (a z3 constant, a concrete value or another SymObj);
+    functions found on `cls` are returned as bound methods and inlined."""
+    def __init__(self, path, factory, cls=None):
+        self.path = path
+        self.factory = factory
+        self.cls = cls
+        self.attrs = {}
+        self.written = {}
 
-def pyfloor_int(a, b):
-    # python floor division for Int with nonzero b: z3 div is euclidean (rounds so remainder >= 0)
-    q = a / b
-    return z3.If(z3.And(b < 0, a - b * q != 0), q + 1 - 1 + (0), q) if False else z3.If(b > 0, q, z3.If(a - b * q == 0, q, q - 1 + 1 - 1))
+    def get(self, name):
+        if name in self.attrs:
+            return self.attrs[name]
+        if self.cls is not None:
+            for k in self.cls.__mro__:
+                if name in k.__dict__ and inspect.isfunction(k.__dict__[name]):
+                    return BoundMethod(k.__dict__[name], self)
+        v = self.factory(self.path + "." + name)
+        self.attrs[name] = v
+        return v
+
+    def set(self, name, v):
+        self.attrs[name] = v
+        self.written[name] = v
+
+
+class BoundMethod:
+    def __init__(self, fn, obj):
+        self.fn = fn
+        self.obj = obj
+
+
+class SuperProxy:
+    def __init__(self, cls, obj):
+        self.cls = cls
+        self.obj = obj
+
+
+class SymStr:
+    """a string whose characters are code points: concrete 1-char strs or BitVec(8) terms"""
+    def __init__(self, chars):
+        self.chars = list(chars)
+
+    def __len__(self):
+        return len(self.chars)
+
+    @staticmethod
+    def of(v):
+        if isinstance(v, SymStr):
+            return v
+        if isinstance(v, str):
+            return SymStr(list(v))
+        raise Unsupported("not a string: %r" % (v,))
+
+    def items(self):
+        """iteration yields 1-character strings"""
+        return [c if isinstance(c, str) else SymStr([c]) for c in self.chars]
+
+    def code(self, i):
+        c = self.chars[i]
+        return z3.BitVecVal(ord(c), 8) if isinstance(c, str) else c
+
+
+def sym_char_eq(a, b):
+    if isinstance(a, str) and isinstance(b, str):
+        return a == b
+    a = z3.BitVecVal(ord(a), 8) if isinstance(a, str) else a
+    b = z3.BitVecVal(ord(b), 8) if isinstance(b, str) else b
+    return a == b
+
+
+def shallow(t, depth, memo=None):
+    """copy of term t in which every proper sub-term below `depth` is replaced by a fresh constant
+    (one per distinct sub-term).  A generalisation of t: if it simplifies to true/false so does t."""
+    memo = {} if memo is None else memo
+    if t.num_args() == 0:
+        return t
+    if depth <= 0:
+        k = ("abs", t.get_id())
+        if k not in memo:
+            memo[k] = z3.Const("abs!%d" % t.get_id(), t.sort())
+        return memo[k]
+    k = (t.get_id(), depth)
+    if k not in memo:
+        memo[k] = t.decl()(*[shallow(c, depth - 1, memo) for c in t.children()])
+    return memo[k]
+
+
+def const_of(c, depth=7):
+    """True / False if the z3 Bool `c` is decided by a bounded-depth simplification, else None.
+    (z3.simplify on the full, deeply nested term costs time quadratic in the unrolling depth:
+    measured 186 s for crc64 on 9 bytes.)"""
+    try:
+        r = z3.simplify(shallow(c, depth))
+    except z3.Z3Exception:
+        return None
+    if z3.is_true(r):
+        return True
+    if z3.is_false(r):
+        return False
+    return None
+
+
+# --------------------------------------------------------------------------- parsing (per process)
+
+_AST_CACHE = {}   # per-process only: every run re-reads the source of the imported module
+
+
+def fn_ast(fn):
+    """FunctionDef of `fn`, re-read from the imported module's source (once per process)"""
+    key = fn
+    if key not in _AST_CACHE:
+        try:
+            src = textwrap.dedent(inspect.getsource(fn))
+        except (OSError, TypeError) as e:
+            raise Unsupported("no source for %r: %s" % (fn, e))
+        node = ast.parse(src).body[0]
+        if not isinstance(node, ast.FunctionDef):
+            raise Unsupported("not a function definition: %r" % (fn,))
+        _AST_CACHE[key] = node
+    return _AST_CACHE[key]
+
+
+def source_lines(fn):
+    return inspect.getsource(fn)
+
+
+# --------------------------------------------------------------------------- interpreter
 
 class Interp:
-    def __init__(self, globs, max_unroll=64):
-        self.globs = globs; self.max_unroll = max_unroll
-        self.defs = []   # definitional constraints (floor quotients)
-        self.trail = []  # decisions taken on this run: [cond_expr, value, flipped]
-        self.replay = [] # decisions to replay
-        self.assume = [] # path assumptions for this run
+    """One symbolic execution (one shape path).
+
+    num: how two *concrete* numbers are lifted when they must be merged under a symbolic
+         condition: 'bv' (width bvw), 'int', 'real' or 'fp'.
+    intrinsics: {callable: handler(interp, args, kwargs)} models / havocs of callees.
+    binop_hook(interp, op, a, b, node) -> value or None : arithmetic havoc hook.
+    """
+    def __init__(self, num="int", bvw=32, max_unroll=64, intrinsics=None, binop_hook=None,
+                 solver=None, script=None):
+        self.num = num
+        self.bvw = bvw
+        self.max_unroll = max_unroll
+        self.intrinsics = dict(intrinsics or {})
+        self.binop_hook = binop_hook
+        self.solver = solver
+        self.script = script if script is not None else []   # DART decisions: [value, done]
         self.pos = 0
-        self.side = []   # unwinding / no-overflow side conditions (must hold)
+        self.assume = []      # fork decisions taken on this path
+        self.defs = []        # definitional constraints (fresh floor quotients)
+        self.side = []        # (label, cond): must hold (no overflow, no raise, unwinding)
+        self.notes = []       # modelling notes (e.g. TypeError handler not reachable)
+        self.cur = True       # current path condition (incl. "not yet returned")
+        self.nstores = 0
+        self.solver_checks = 0
+        self.solver_time = 0.0
+        self.depth = 0
+
+    # ---- concrete/symbolic helpers
+
+    def lift(self, c, like=None):
+        """python scalar -> z3 term, of the sort of `like` if given, else by self.num"""
+        if is_sym(c):
+            return c
+        if like is not None:
+            if z3.is_bv(like):
+                if isinstance(c, float):
+                    raise Unsupported("float meets bit-vector")
+                c = int(c)
+                w = like.size()
+                if not (-(1 << (w - 1)) <= c < (1 << (w - 1))):
+                    raise Unsupported("constant %d does not fit signed %d bits" % (c, w))
+                return z3.BitVecVal(c, w)
+            if z3.is_fp(like):
+                if isinstance(c, int) and not isinstance(c, bool) and abs(c) > 2 ** 53:
+                    raise Unsupported("int constant not exactly a float")
+                return fp_val(c)
+            if z3.is_real(like):
+                return exact_real(c)
+            if z3.is_int(like):
+                if isinstance(c, float) and not c.is_integer():
+                    return exact_real(c)
+                if isinstance(c, Fraction) and c.denominator != 1:
+                    return exact_real(c)
+                return z3.IntVal(int(c))
+            if z3.is_bool(like):
+                if isinstance(c, bool):
+                    return z3.BoolVal(c)
+                raise Unsupported("number meets Bool")
+        if isinstance(c, bool):
+            return z3.BoolVal(c)
+        if isinstance(c, float):
+            if self.num == "fp":
+                return fp_val(c)
+            return exact_real(c)
+        if isinstance(c, Fraction):
+            return exact_real(c)
+        if isinstance(c, int):
+            if self.num == "bv":
+                return self.lift(c, z3.BitVec("_", self.bvw))
+            if self.num == "real":
+                return z3.RealVal(c)
+            if self.num == "fp":
+                return self.lift(c, z3.FP("_", FP64))
+            return z3.IntVal(c)
+        raise Unsupported("cannot lift %r" % (c,))
+
+    def coerce2(self, a, b):
+        if is_sym(a) and not is_sym(b):
+            if z3.is_bool(a) and not isinstance(b, bool):
+                a = self.bool_to_num(a)
+            if z3.is_int(a) and ((isinstance(b, float) and not b.is_integer()) or
+                                 (isinstance(b, Fraction) and b.denominator != 1)):
+                a = z3.ToReal(a)
+            return a, self.lift(b, a)
+        if is_sym(b) and not is_sym(a):
+            y, x = self.coerce2(b, a)
+            return x, y
+        if not is_sym(a) and not is_sym(b):
+            if isinstance(a, bool) and isinstance(b, bool):
+                return z3.BoolVal(a), z3.BoolVal(b)
+            if isinstance(a, float) or isinstance(b, float) or isinstance(a, Fraction) or isinstance(b, Fraction):
+                if self.num == "fp":
+                    return fp_val(a), fp_val(b)
+                return exact_real(a), exact_real(b)
+            return self.lift(int(a)), self.lift(int(b))
+        if z3.is_bool(a) and not z3.is_bool(b):
+            a = self.bool_to_num(a, b)
+        if z3.is_bool(b) and not z3.is_bool(a):
+            b = self.bool_to_num(b, a)
+        if z3.is_bv(a) and z3.is_bv(b) and a.size() != b.size():
+            n = max(a.size(), b.size())
+            a = z3.SignExt(n - a.size(), a) if a.size() < n else a
+            b = z3.SignExt(n - b.size(), b) if b.size() < n else b
+            return a, b
+        if z3.is_int(a) and z3.is_real(b):
+            return z3.ToReal(a), b
+        if z3.is_real(a) and z3.is_int(b):
+            return a, z3.ToReal(b)
+        if a.sort() != b.sort():
+            raise Unsupported("sorts %s / %s" % (a.sort(), b.sort()))
+        return a, b
+
+    def bool_to_num(self, b, like=None):
+        one, zero = (self.lift(1, like), self.lift(0, like)) if like is not None else (self.lift(1), self.lift(0))
+        return z3.If(b, one, zero)
+
+    def truth(self, v):
+        """python truthiness -> python bool or z3 Bool"""
+        if is_sym(v):
+            if z3.is_bool(v):
+                return v
+            if z3.is_fp(v):
+                return z3.Not(z3.fpIsZero(v))
+            if z3.is_bv(v) or z3.is_int(v) or z3.is_real(v):
+                return v != 0
+            raise Unsupported("truth of %s" % v.sort())
+        if isinstance(v, SymStr):
+            return len(v) > 0
+        if isinstance(v, (SymObj, BoundMethod)):
+            return True
+        if v is POISON:
+            raise Unsupported("read of a possibly unbound name")
+        return bool(v)
+
+    @staticmethod
+    def land(a, b):
+        if a is False or b is False:
+            return False
+        if a is True:
+            return b
+        if b is True:
+            return a
+        return z3.And(a, b)
+
+    @staticmethod
+    def lor(a, b):
+        if a is True or b is True:
+            return True
+        if a is False:
+            return b
+        if b is False:
+            return a
+        return z3.Or(a, b)
+
+    @staticmethod
+    def lnot(a):
+        if a is True:
+            return False
+        if a is False:
+            return True
+        return z3.Not(a)
+
+    def ite(self, c, a, b):
+        """merge two python-level values under condition c (shape differences -> _NeedFork)"""
+        if not is_sym(c):
+            return a if c else b
+        if a is b:
+            return a
+        if a is POISON or b is POISON:
+            return POISON
+        if isinstance(a, (list, tuple)) or isinstance(b, (list, tuple)):
+            if type(a) is not type(b) or len(a) != len(b):
+                raise _NeedFork("merge of different shapes")
+            return type(a)(self.ite(c, x, y) for x, y in zip(a, b))
+        if isinstance(a, SymStr) or isinstance(b, SymStr) or isinstance(a, str) or isinstance(b, str):
+            if isinstance(a, str) and isinstance(b, str) and a == b:
+                return a
+            if not isinstance(a, (str, SymStr)) or not isinstance(b, (str, SymStr)):
+                raise _NeedFork("merge of string and non-string")
+            sa, sb = SymStr.of(a), SymStr.of(b)
+            if len(sa) != len(sb):
+                raise _NeedFork("merge of strings of different length")
+            return SymStr([x if (isinstance(x, str) and isinstance(y, str) and x == y)
+                           else z3.If(c, sa.code(i), sb.code(i))
+                           for i, (x, y) in enumerate(zip(sa.chars, sb.chars))])
+        if not is_sym(a) and not is_sym(b):
+            if type(a) is type(b) and a == b and not (isinstance(a, float) and a != a):
+                return a
+            if a is None or b is None:
+                raise _NeedFork("merge with None")
+            if not isinstance(a, (bool, int, float, Fraction)) or not isinstance(b, (bool, int, float, Fraction)):
+                raise _NeedFork("merge of %s and %s" % (type(a).__name__, type(b).__name__))
+        elif a is None or b is None or isinstance(a, (SymObj, BoundMethod)) or isinstance(b, (SymObj, BoundMethod)):
+            raise _NeedFork("merge of scalar and object")
+        elif (not is_sym(a) and not isinstance(a, (bool, int, float, Fraction))) or \
+                (not is_sym(b) and not isinstance(b, (bool, int, float, Fraction))):
+            raise _NeedFork("merge of scalar and %s" % type(a if is_sym(b) else b).__name__)
+        sa, sb = self.coerce2(a, b)
+        return z3.If(c, sa, sb)
+
+    # ---- DART decisions
+
+    def _check(self, *extra):
+        t = time.time()
+        self.solver.push()
+        try:
+            self.solver.add(*self.assume)
+            self.solver.add(*self.defs)
+            self.solver.add(*extra)
+            r = str(self.solver.check())
+        finally:
+            self.solver.pop()
+        self.solver_checks += 1
+        self.solver_time += time.time() - t
+        return r
 
     def decide(self, c):
-        """fork point: returns a concrete bool for symbolic condition c (DART style)"""
-        if not is_sym(c): return bool(c)
-        c = z3.simplify(c)
-        if z3.is_true(c): return True
-        if z3.is_false(c): return False
-        if self.pos < len(self.replay):
-            v = self.replay[self.pos][1]
+        """fork point: returns a concrete bool for condition c; each alternative is checked
+        for feasibility under the decisions taken so far before it is scheduled"""
+        if not is_sym(c):
+            return bool(c)
+        k = const_of(c)
+        if k is not None:
+            return k
+        if self.pos < len(self.script):
+            v = self.script[self.pos][0]
         else:
-            v = True
-            self.replay.append([c, v, False])
+            if self.solver is None:
+                raise Unsupported("shape fork needs a solver")
+            rt, rf = self._check(c), self._check(z3.Not(c))
+            if "unknown" in (rt, rf):
+                raise Unsupported("feasibility of a shape fork is unknown")
+            if rt == "sat" and rf == "sat":
+                v = True
+                self.script.append([True, False])
+            elif rt == "sat":
+                v = True
+                self.script.append([True, True])
+            elif rf == "sat":
+                v = False
+                self.script.append([False, True])
+            else:
+                raise Unsupported("infeasible path prefix")
         self.pos += 1
         self.assume.append(c if v else z3.Not(c))
         return v
 
-    def call(self, fn, args, kwargs=None):
-        src = textwrap.dedent(inspect.getsource(fn))
-        fdef = ast.parse(src).body[0]
-        env = {}
-        params = [a.arg for a in fdef.args.args]
-        defaults = fdef.args.defaults
-        for i, p in enumerate(params):
-            if i < len(args): env[p] = args[i]
-            elif kwargs and p in kwargs: env[p] = kwargs[p]
-            else:
-                d = defaults[i - (len(params) - len(defaults))]
-                env[p] = self.eval(d, {}, fn.__globals__)
-        st = {'env': env, 'ret': None, 'retc': False, 'g': fn.__globals__}
-        self.block(fdef.body, st, True)
-        return st['ret']
+    # ---- calls
 
-    # state: env dict, ret value (merged), retc = condition under which already returned
+    def call(self, fn, args=(), kwargs=None):
+        """inline-translate python function `fn` on (possibly symbolic) arguments"""
+        if isinstance(fn, BoundMethod):
+            return self.call(fn.fn, [fn.obj] + list(args), kwargs)
+        fdef = fn_ast(fn)
+        kwargs = dict(kwargs or {})
+        a = fdef.args
+        if a.vararg or a.kwonlyargs or getattr(a, "posonlyargs", None):
+            raise Unsupported("signature of %s" % fdef.name)
+        params = [x.arg for x in a.args]
+        if len(args) > len(params):
+            raise Unsupported("too many positional arguments for %s" % fdef.name)
+        env = {}
+        g = fn.__globals__
+        for i, p in enumerate(params):
+            if i < len(args):
+                env[p] = args[i]
+            elif p in kwargs:
+                env[p] = kwargs.pop(p)
+            else:
+                k = i - (len(params) - len(a.defaults))
+                if k < 0:
+                    raise PyRaise(TypeError("missing argument %s of %s" % (p, fdef.name)))
+                env[p] = self.eval(a.defaults[k], {}, g)
+                if isinstance(env[p], (list, dict)):   # mutable default: fresh model copy
+                    env[p] = type(env[p])(env[p])
+        if a.kwarg:
+            env[a.kwarg.arg] = kwargs
+        elif kwargs:
+            raise PyRaise(TypeError("unexpected keyword %s for %s" % (sorted(kwargs), fdef.name)))
+        self.depth += 1
+        if self.depth > 40:
+            raise Unsupported("call depth")
+        outer = self.cur
+        st = {"env": env, "ret": None, "retc": False, "g": g, "fn": fn, "base": outer}
+        try:
+            self.block(fdef.body, st, True)
+        finally:
+            self.cur = outer
+            self.depth -= 1
+        return st["ret"]
+
+    def exec_block(self, stmts, env, g, fn=None):
+        """execute a statement list in a given environment (used for loop-body dissection);
+        returns the state dict (env, ret, retc)"""
+        st = {"env": env, "ret": None, "retc": False, "g": g, "fn": fn, "base": True}
+        self.block(stmts, st, True)
+        return st
+
+    # ---- statements
+
     def block(self, stmts, st, pc):
         for s in stmts:
-            live = self.land(pc, self.lnot(st['retc']))
-            if live is False: return
+            live = self.land(pc, self.lnot(st["retc"]))
+            if live is False:
+                return
+            self.cur = self.land(st["base"], live)
             self.stmt(s, st, pc)
 
-    def land(self, a, b):
-        if a is False or b is False: return False
-        if a is True: return b
-        if b is True: return a
-        return z3.And(a, b)
-    def lnot(self, a):
-        if a is True: return False
-        if a is False: return True
-        return z3.Not(a)
-    def lor(self, a, b):
-        if a is True or b is True: return True
-        if a is False: return b
-        if b is False: return a
-        return z3.Or(a, b)
-
-    def assign(self, st, name, val, pc):
-        if pc is True or name not in st['env']:
-            st['env'][name] = val
-        else:
-            st['env'][name] = ite(pc, val, st['env'][name])
-
     def stmt(self, s, st, pc):
-        env = st['env']
+        env, g = st["env"], st["g"]
         if isinstance(s, ast.Expr):
-            if isinstance(s.value, ast.Constant): return  # docstring
-            self.eval(s.value, env, st['g']); return
+            if isinstance(s.value, ast.Constant):
+                return
+            self.eval(s.value, env, g)
+            return
         if isinstance(s, ast.Assign):
-            v = self.eval(s.value, env, st['g'])
-            for t in s.targets: self.assign_target(t, v, st, pc)
+            v = self.eval(s.value, env, g)
+            for t in s.targets:
+                self.assign_target(t, v, st)
             return
         if isinstance(s, ast.AugAssign):
-            cur = self.eval(s.target, env, st['g'])
-            v = self.binop(s.op, cur, self.eval(s.value, env, st['g']))
-            self.assign_target(s.target, v, st, pc); return
+            cur = self.eval(s.target, env, g)
+            if isinstance(cur, list) and isinstance(s.op, ast.Add):
+                raise Unsupported("in-place list +=")
+            v = self.binop(s.op, cur, self.eval(s.value, env, g), s)
+            self.assign_target(s.target, v, st)
+            return
         if isinstance(s, ast.If):
-            c = to_bool(self.eval(s.test, env, st['g']))
+            c = self.truth(self.eval(s.test, env, g))
+            if is_sym(c):
+                k = const_of(c)
+                c = c if k is None else k
             if not is_sym(c):
-                self.block(s.body if c else s.orelse, st, pc); return
-            c = z3.simplify(c)
-            if z3.is_true(c): self.block(s.body, st, pc); return
-            if z3.is_false(c): self.block(s.orelse, st, pc); return
-            self.block(s.body, st, self.land(pc, c))
-            self.block(s.orelse, st, self.land(pc, z3.Not(c)))
+                self.block(s.body if c else s.orelse, st, pc)
+                return
+            self.stmt_if_sym(s, c, st, pc)
             return
         if isinstance(s, ast.Return):
-            v = self.eval(s.value, env, st['g']) if s.value is not None else None
-            pc = self.land(pc, self.lnot(st['retc']))
-            if st['retc'] is False and pc is True:
-                st['ret'] = v
-            elif st['ret'] is None and st['retc'] is False:
-                st['ret'] = v
+            v = self.eval(s.value, env, g) if s.value is not None else None
+            live = self.land(pc, self.lnot(st["retc"]))
+            if st["retc"] is False:
+                st["ret"] = v
             else:
-                st['ret'] = ite(pc, v, st['ret'])
-            st['retc'] = self.lor(st['retc'], pc)
+                st["ret"] = self.ite(live, v, st["ret"])
+            st["retc"] = self.lor(st["retc"], live)
+            if is_sym(st["retc"]) and const_of(st["retc"], 3) is True:
+                st["retc"] = True
             return
         if isinstance(s, ast.For):
-            it = self.eval(s.iter, env, st['g'])
-            if is_sym(it): raise Unsupported("symbolic iterable")
+            it = self.eval(s.iter, env, g)
+            if is_sym(it):
+                raise Unsupported("symbolic iterable")
+            if isinstance(it, SymStr):
+                it = it.items()
+            if s.orelse:
+                raise Unsupported("for-else")
+            n = 0
             for x in list(it):
-                live = self.land(pc, self.lnot(st['retc']))
-                if live is False: break
-                self.assign_target(s.target, x, st, pc)
+                live = self.land(pc, self.lnot(st["retc"]))
+                if live is False:
+                    break
+                n += 1
+                if n > 4096:
+                    raise Unsupported("for loop longer than 4096")
+                self.cur = self.land(st["base"], live)
+                self.assign_target(s.target, x, st)
                 self.block(s.body, st, pc)
             return
         if isinstance(s, ast.While):
+            if s.orelse:
+                raise Unsupported("while-else")
             for k in range(self.max_unroll + 1):
-                c = to_bool(self.eval(s.test, env, st['g']))
-                if pc is not True or st['retc'] is not False:
-                    raise Unsupported("while under symbolic pc")
-                if not self.decide(c): return
+                c = self.truth(self.eval(s.test, env, g))
+                if is_sym(c) and (pc is not True or st["retc"] is not False):
+                    raise _NeedFork("while under a symbolic condition")
+                if not self.decide(c):
+                    return
                 if k == self.max_unroll:
-                    raise Unsupported("unwind bound hit")
+                    raise Unsupported("unwind bound %d hit" % self.max_unroll)
                 self.block(s.body, st, pc)
+                if st["retc"] is True:
+                    return
             return
-        if isinstance(s, ast.Pass): return
-        raise Unsupported(ast.dump(s)[:80])
+        if isinstance(s, ast.Pass):
+            return
+        if isinstance(s, ast.Try):
+            self.stmt_try(s, st, pc)
+            return
+        if isinstance(s, ast.Raise):
+            live = self.land(pc, self.lnot(st["retc"]))
+            full = self.land(st["base"], live)
+            if full is True:
+                exc = self.eval(s.exc, env, g) if s.exc is not None else RuntimeError("re-raise")
+                raise PyRaise(exc if isinstance(exc, BaseException) else exc())
+            self.side.append(("raise at line %d of %s" % (s.lineno, getattr(st.get("fn"), "__name__", "?")),
+                              z3.Not(full)))
+            st["retc"] = self.lor(st["retc"], live)
+            return
+        if isinstance(s, (ast.Import, ast.ImportFrom, ast.Global)):
+            raise Unsupported(type(s).__name__)
+        raise Unsupported("statement " + type(s).__name__)
 
-    def assign_target(self, t, v, st, pc):
-        if isinstance(t, ast.Name):
-            self.assign(st, t.id, v, pc)
-        elif isinstance(t, (ast.Tuple, ast.List)):
-            vals = list(v)
-            for tt, vv in zip(t.elts, vals): self.assign_target(tt, vv, st, pc)
+    def stmt_if_sym(self, s, c, st, pc):
+        env = st["env"]
+        snap = (st["ret"], st["retc"], self.nstores, len(self.side), len(self.defs))
+        try:
+            sa = dict(st, env=dict(env))
+            self.block(s.body, sa, self.land(pc, c))
+            sb = dict(st, env=dict(env), ret=sa["ret"], retc=sa["retc"])
+            self.block(s.orelse, sb, self.land(pc, z3.Not(c)))
+            merged = {}
+            for name in list(sa["env"].keys()) + [k for k in sb["env"] if k not in sa["env"]]:
+                va, vb = sa["env"].get(name, POISON), sb["env"].get(name, POISON)
+                merged[name] = va if va is vb else self.ite(c, va, vb)
+            st["ret"], st["retc"] = sb["ret"], sb["retc"]
+            env.clear()
+            env.update(merged)
+        except _NeedFork as e:
+            if pc is not True or snap[1] is not False or st["base"] is not True:
+                raise
+            if self.nstores != snap[2]:
+                raise Unsupported("shape fork after an attribute store (%s)" % e)
+            st["ret"], st["retc"] = snap[0], snap[1]
+            del self.side[snap[3]:]
+            self.cur = True
+            v = self.decide(c)
+            self.block(s.body if v else s.orelse, st, pc)
+
+    def stmt_try(self, s, st, pc):
+        if s.finalbody or s.orelse:
+            raise Unsupported("try/finally or try/else")
+        names = []
+        for h in s.handlers:
+            if h.name is not None or not isinstance(h.type, ast.Name):
+                raise Unsupported("except clause form")
+            names.append(h.type.id)
+        try:
+            self.block(s.body, st, pc)
+        except PyRaise as e:
+            for h in s.handlers:
+                if type(e.exc).__name__ == h.type.id or h.type.id in [k.__name__ for k in type(e.exc).__mro__]:
+                    self.block(h.body, st, pc)
+                    return
+            raise
         else:
-            raise Unsupported("target " + ast.dump(t)[:60])
+            # numeric z3 sorts cannot raise TypeError/ValueError in the operations we translate;
+            # concrete sub-expressions that raise were routed to the handler above
+            self.notes.append("handlers %s not reachable for numeric operands" % names)
 
-    def binop(self, op, a, b):
-        if not is_sym(a) and not is_sym(b):
-            return {ast.Add: operator.add, ast.Sub: operator.sub, ast.Mult: operator.mul, ast.BitAnd: operator.and_,
-                    ast.BitOr: operator.or_, ast.BitXor: operator.xor, ast.LShift: operator.lshift, ast.RShift: operator.rshift,
-                    ast.Mod: operator.mod, ast.FloorDiv: operator.floordiv, ast.Pow: operator.pow, ast.Div: operator.truediv}[type(op)](a, b)
-        a, b = coerce2(a, b)
-        t = type(op)
-        if t is ast.Add: return a + b
-        if t is ast.Sub: return a - b
-        if t is ast.Mult: return a * b
-        if t is ast.Mod and (z3.is_real(a) or z3.is_int(a)):
-            if z3.is_int(a): return a % b if False else a - b * pyfloor_int(a, b)
-            q = z3.FreshInt("q"); r = a - b * z3.ToReal(q)
+    def assign_target(self, t, v, st):
+        env = st["env"]
+        if isinstance(t, ast.Name):
+            env[t.id] = v
+            return
+        if isinstance(t, (ast.Tuple, ast.List)):
+            if is_sym(v) or isinstance(v, SymObj):
+                raise Unsupported("unpacking a scalar")
+            vals = v.items() if isinstance(v, SymStr) else list(v)
+            if len(vals) != len(t.elts):
+                raise PyRaise(ValueError("unpack %d into %d" % (len(vals), len(t.elts))))
+            for tt, vv in zip(t.elts, vals):
+                self.assign_target(tt, vv, st)
+            return
+        if isinstance(t, ast.Attribute):
+            obj = self.eval(t.value, env, st["g"])
+            if not isinstance(obj, SymObj):
+                raise Unsupported("attribute store on %s" % type(obj).__name__)
+            if self.cur is True:
+                obj.set(t.attr, v)
+            else:
+                obj.set(t.attr, self.ite(self.cur, v, obj.get(t.attr)))
+            self.nstores += 1
+            return
+        if isinstance(t, ast.Subscript):
+            obj = self.eval(t.value, env, st["g"])
+            if not isinstance(obj, list):
+                raise Unsupported("subscript store on %s" % type(obj).__name__)
+            if self.cur is not True:
+                raise _NeedFork("list store under a symbolic condition")
+            if isinstance(t.slice, ast.Slice):
+                sl = self.eval_slice(t.slice, env, st["g"])
+                if is_sym(v) or not isinstance(v, (list, tuple, bytes, bytearray)):
+                    raise Unsupported("slice store of a scalar")
+                obj[sl] = list(v)
+            else:
+                i = self.eval(t.slice, env, st["g"])
+                if is_sym(i):
+                    raise Unsupported("symbolic index store")
+                obj[i] = v
+            return
+        raise Unsupported("assignment target " + type(t).__name__)
+
+    # ---- expressions
+
+    def arith_fp(self, t, a, b):
+        if t is ast.Add:
+            return z3.fpAdd(RNE, a, b)
+        if t is ast.Sub:
+            return z3.fpSub(RNE, a, b)
+        if t is ast.Mult:
+            return z3.fpMul(RNE, a, b)
+        if t is ast.Div:
+            self.side.append(("float division by zero", self.implies_cur(z3.Not(z3.fpIsZero(b)))))
+            return z3.fpDiv(RNE, a, b)
+        raise Unsupported("float operator %s" % t.__name__)
+
+    def implies_cur(self, c):
+        return c if self.cur is True else z3.Implies(self.cur, c)
+
+    def add_side(self, label, c):
+        if const_of(c) is True:
+            return
+        self.side.append((label, self.implies_cur(c)))
+
+    def floor_quot(self, a, b, label):
+        """fresh integer quotient q with 0 <= a-bq < b (b>0) / b < a-bq <= 0 (b<0): python floor semantics"""
+        q = z3.FreshInt("q")
+        if z3.is_int(a) and z3.is_int(b):
+            r = a - b * q
+        else:
+            a = z3.ToReal(a) if z3.is_int(a) else a
+            b = z3.ToReal(b) if z3.is_int(b) else b
+            r = a - b * z3.ToReal(q)
+        bz = const_of(b == 0)
+        if bz is True:
+            raise PyRaise(ZeroDivisionError(label))
+        if bz is None:
+            self.add_side("division by zero", b != 0)
+        pos = const_of(b > 0)
+        if pos is True:
+            self.defs.append(z3.And(r >= 0, r < b))
+        elif pos is False:
+            self.defs.append(z3.And(r <= 0, r > b))
+        else:
             self.defs.append(z3.If(b > 0, z3.And(r >= 0, r < b), z3.And(r <= 0, r > b)))
-            return r
-        if t is ast.Div and z3.is_real(a): return a / b
+        return q, r
+
+    _CONC = {ast.Add: operator.add, ast.Sub: operator.sub, ast.Mult: operator.mul, ast.BitAnd: operator.and_,
+             ast.BitOr: operator.or_, ast.BitXor: operator.xor, ast.LShift: operator.lshift,
+             ast.RShift: operator.rshift, ast.Mod: operator.mod, ast.FloorDiv: operator.floordiv,
+             ast.Pow: operator.pow, ast.Div: operator.truediv}
+
+    def binop(self, op, a, b, node=None):
+        t = type(op)
+        if a is POISON or b is POISON:
+            raise Unsupported("read of a possibly unbound name")
+        if self.binop_hook is not None:
+            r = self.binop_hook(self, op, a, b, node)
+            if r is not None:
+                return r
+        if isinstance(a, (SymStr, str)) and isinstance(b, (SymStr, str)) and (isinstance(a, SymStr) or isinstance(b, SymStr)):
+            if t is ast.Add:
+                return SymStr(SymStr.of(a).chars + SymStr.of(b).chars)
+            raise Unsupported("string operator")
+        if not is_sym(a) and not is_sym(b):
+            if t not in self._CONC:
+                raise Unsupported("operator " + t.__name__)
+            try:
+                return self._CONC[t](a, b)
+            except Exception as e:       # concrete python raise (TypeError for str - int, ...)
+                raise PyRaise(e)
+        if isinstance(a, (list, tuple)) or isinstance(b, (list, tuple)):
+            raise Unsupported("sequence operator with a symbolic operand")
+        a, b = self.coerce2(a, b)
+        if z3.is_bool(a):
+            a, b = self.bool_to_num(a), self.bool_to_num(b)
+        if z3.is_fp(a):
+            return self.arith_fp(t, a, b)
         if z3.is_bv(a):
-            if t is ast.BitAnd: return a & b
-            if t is ast.BitOr: return a | b
-            if t is ast.BitXor: return a ^ b
-            if t is ast.LShift: return a << b
-            if t is ast.RShift: return a >> b   # arithmetic shift like python
-        raise Unsupported("binop %s" % t.__name__)
+            if t is ast.BitAnd:
+                return a & b
+            if t is ast.BitOr:
+                return a | b
+            if t is ast.BitXor:
+                return a ^ b
+            if t is ast.RShift:
+                self.add_side("shift count", z3.And(b >= 0, z3.ULT(b, a.size())))
+                return a >> b            # arithmetic, like python on negative ints
+            if t is ast.LShift:
+                r = a << b
+                bb = z3.simplify(b)
+                if z3.is_bv_value(bb) and 0 <= bb.as_signed_long() < a.size() - 1:
+                    # no overflow iff the top k+1 bits are a sign extension (cheap, mostly decided by simplify)
+                    k = bb.as_signed_long()
+                    top = z3.Extract(a.size() - 1, a.size() - 1 - k, a)
+                    self.add_side("bit-vector width (<<)", z3.Or(top == 0, top == -1))
+                else:
+                    self.add_side("bit-vector width (<<)", z3.And(b >= 0, z3.ULT(b, a.size()), (r >> b) == a))
+                return r
+            if t is ast.Add:
+                self.add_side("bit-vector width (+)", z3.And(z3.BVAddNoOverflow(a, b, True), z3.BVAddNoUnderflow(a, b)))
+                return a + b
+            if t is ast.Sub:
+                self.add_side("bit-vector width (-)", z3.And(z3.BVSubNoOverflow(a, b), z3.BVSubNoUnderflow(a, b, True)))
+                return a - b
+            if t is ast.Mult:
+                self.add_side("bit-vector width (*)", z3.And(z3.BVMulNoOverflow(a, b, True), z3.BVMulNoUnderflow(a, b)))
+                return a * b
+            raise Unsupported("bit-vector operator " + t.__name__)
+        if t is ast.Add:
+            return a + b
+        if t is ast.Sub:
+            return a - b
+        if t is ast.Mult:
+            return a * b
+        if t is ast.Mod:
+            return self.floor_quot(a, b, "modulo")[1]
+        if t is ast.FloorDiv:
+            q = self.floor_quot(a, b, "floor division")[0]
+            return q if (z3.is_int(a) and z3.is_int(b)) else z3.ToReal(q)
+        if t is ast.Div:
+            a = z3.ToReal(a) if z3.is_int(a) else a
+            b = z3.ToReal(b) if z3.is_int(b) else b
+            self.add_side("division by zero", b != 0)
+            return a / b
+        raise Unsupported("operator %s on %s" % (t.__name__, a.sort()))
+
+    def neg(self, v):
+        if not is_sym(v):
+            return -v
+        if z3.is_fp(v):
+            return z3.fpNeg(v)
+        if z3.is_bv(v):
+            self.add_side("bit-vector width (neg)", v != (1 << (v.size() - 1)))
+        if z3.is_bool(v):
+            v = self.bool_to_num(v)
+        return -v
+
+    def pyabs(self, v):
+        if not is_sym(v):
+            return abs(v)
+        if z3.is_fp(v):
+            return z3.fpAbs(v)
+        if z3.is_bool(v):
+            return self.bool_to_num(v)
+        return z3.If(v >= 0, v, self.neg(v))
 
     def cmp(self, op, a, b):
-        if isinstance(a, (tuple, list)) and isinstance(b, (tuple, list)):
-            if isinstance(op, (ast.Eq, ast.NotEq)):
-                if len(a) != len(b): r = False
+        t = type(op)
+        if a is POISON or b is POISON:
+            raise Unsupported("read of a possibly unbound name")
+        if t is ast.Is:
+            return a is b
+        if t is ast.IsNot:
+            return a is not b
+        if t in (ast.In, ast.NotIn):
+            if isinstance(b, (str, SymStr)) and isinstance(a, (str, SymStr)):
+                sa, sb = SymStr.of(a), SymStr.of(b)
+                if len(sa) != 1:
+                    if isinstance(a, str) and isinstance(b, str):
+                        r = a in b
+                    else:
+                        raise Unsupported("substring test on symbolic strings")
+                else:
+                    r = False
+                    for y in sb.chars:
+                        r = self.lor(r, sym_char_eq(sa.chars[0], y))
+            elif is_sym(b) or isinstance(b, SymObj):
+                raise Unsupported("membership in a scalar")
+            elif not has_sym(a) and not has_sym(b):
+                r = a in b
+            else:
+                r = False
+                for y in b:
+                    r = self.lor(r, self.cmp(ast.Eq(), a, y))
+            return r if t is ast.In else self.lnot(r)
+        seqs = (tuple, list)
+        if isinstance(a, seqs) and isinstance(b, seqs) and (has_sym(a) or has_sym(b)):
+            if t in (ast.Eq, ast.NotEq):
+                if type(a) is not type(b) or len(a) != len(b):
+                    r = False
                 else:
                     r = True
-                    for x, y in zip(a, b): r = self.land(r, self.cmp(ast.Eq(), x, y))
-                return r if isinstance(op, ast.Eq) else self.lnot(r)
-        if isinstance(op, ast.Is): return a is b
-        if isinstance(op, ast.IsNot): return a is not b
-        if isinstance(op, ast.In):
-            r = False
-            for y in b: r = self.lor(r, self.cmp(ast.Eq(), a, y))
-            return r
+                    for x, y in zip(a, b):
+                        r = self.land(r, self.cmp(ast.Eq(), x, y))
+                return r if t is ast.Eq else self.lnot(r)
+            raise Unsupported("ordering of symbolic sequences")
+        if isinstance(a, (str, SymStr)) and isinstance(b, (str, SymStr)) and (isinstance(a, SymStr) or isinstance(b, SymStr)):
+            if t in (ast.Eq, ast.NotEq):
+                sa, sb = SymStr.of(a), SymStr.of(b)
+                if len(sa) != len(sb):
+                    r = False
+                else:
+                    r = True
+                    for x, y in zip(sa.chars, sb.chars):
+                        r = self.land(r, sym_char_eq(x, y))
+                return r if t is ast.Eq else self.lnot(r)
+            raise Unsupported("ordering of symbolic strings")
         if not is_sym(a) and not is_sym(b):
-            return {ast.Eq: operator.eq, ast.NotEq: operator.ne, ast.Lt: operator.lt, ast.LtE: operator.le,
-                    ast.Gt: operator.gt, ast.GtE: operator.ge}[type(op)](a, b)
-        a, b = coerce2(a, b)
-        t = type(op)
-        if t is ast.Eq: return a == b
-        if t is ast.NotEq: return a != b
-        if t is ast.Lt: return a < b
-        if t is ast.LtE: return a <= b
-        if t is ast.Gt: return a > b
-        if t is ast.GtE: return a >= b
-        raise Unsupported("cmp")
+            f = {ast.Eq: operator.eq, ast.NotEq: operator.ne, ast.Lt: operator.lt, ast.LtE: operator.le,
+                 ast.Gt: operator.gt, ast.GtE: operator.ge}[t]
+            try:
+                return f(a, b)
+            except Exception as e:
+                raise PyRaise(e)
+        if isinstance(a, seqs + (str, SymStr, SymObj)) or isinstance(b, seqs + (str, SymStr, SymObj)) or a is None or b is None:
+            if t is ast.Eq:
+                return False
+            if t is ast.NotEq:
+                return True
+            raise Unsupported("ordering of a number and a non-number")
+        a, b = self.coerce2(a, b)
+        if z3.is_fp(a):
+            return {ast.Eq: z3.fpEQ(a, b), ast.NotEq: z3.Not(z3.fpEQ(a, b)), ast.Lt: z3.fpLT(a, b),
+                    ast.LtE: z3.fpLEQ(a, b), ast.Gt: z3.fpGT(a, b), ast.GtE: z3.fpGEQ(a, b)}[t]
+        if z3.is_bool(a) and t not in (ast.Eq, ast.NotEq):
+            a, b = self.bool_to_num(a), self.bool_to_num(b)
+        if t is ast.Eq:
+            return a == b
+        if t is ast.NotEq:
+            return a != b
+        if t is ast.Lt:
+            return a < b
+        if t is ast.LtE:
+            return a <= b
+        if t is ast.Gt:
+            return a > b
+        if t is ast.GtE:
+            return a >= b
+        raise Unsupported("comparison " + t.__name__)
+
+    def eval_slice(self, sl, env, g):
+        lo = self.eval(sl.lower, env, g) if sl.lower is not None else None
+        hi = self.eval(sl.upper, env, g) if sl.upper is not None else None
+        st = self.eval(sl.step, env, g) if sl.step is not None else None
+        if is_sym(lo) or is_sym(hi) or is_sym(st):
+            raise Unsupported("symbolic slice bound")
+        return slice(lo, hi, st)
+
+    def pyminmax(self, which, vals):
+        """CPython's min/max: keep the first, replace when `item < best` / `item > best`"""
+        best = vals[0]
+        for x in vals[1:]:
+            c = self.cmp(ast.Lt() if which == "min" else ast.Gt(), x, best)
+            best = self.ite(c, x, best) if is_sym(c) else (x if c else best)
+        return best
 
     def eval(self, e, env, g):
-        if isinstance(e, ast.Constant): return e.value
+        if isinstance(e, ast.Constant):
+            return e.value
         if isinstance(e, ast.Name):
-            if e.id in env: return env[e.id]
-            if e.id in g: return g[e.id]
-            import builtins
-            return getattr(builtins, e.id)
-        if isinstance(e, ast.Tuple): return tuple(self.eval(x, env, g) for x in e.elts)
-        if isinstance(e, ast.List): return [self.eval(x, env, g) for x in e.elts]
-        if isinstance(e, ast.BinOp): return self.binop(e.op, self.eval(e.left, env, g), self.eval(e.right, env, g))
+            if e.id in env:
+                v = env[e.id]
+                if v is POISON:
+                    raise Unsupported("read of possibly unbound name " + e.id)
+                return v
+            if e.id in g:
+                return g[e.id]
+            if hasattr(builtins, e.id):
+                return getattr(builtins, e.id)
+            raise PyRaise(NameError(e.id))
+        if isinstance(e, ast.Tuple):
+            return tuple(self.eval(x, env, g) for x in e.elts)
+        if isinstance(e, ast.List):
+            return [self.eval(x, env, g) for x in e.elts]
+        if isinstance(e, ast.BinOp):
+            return self.binop(e.op, self.eval(e.left, env, g), self.eval(e.right, env, g), e)
         if isinstance(e, ast.UnaryOp):
             v = self.eval(e.operand, env, g)
             if isinstance(e.op, ast.Not):
-                b = to_bool(v); return self.lnot(b) if is_sym(b) else (not b)
-            if isinstance(e.op, ast.USub): return -v
+                return self.lnot(self.truth(v))
+            if isinstance(e.op, ast.USub):
+                return self.neg(v)
+            if isinstance(e.op, ast.UAdd):
+                return v
+            if isinstance(e.op, ast.Invert):
+                if not is_sym(v):
+                    return ~v
+                if z3.is_bv(v):
+                    return ~v
+            raise Unsupported("unary operator")
         if isinstance(e, ast.BoolOp):
-            vals = [to_bool(self.eval(x, env, g)) for x in e.values]
-            r = True if isinstance(e.op, ast.And) else False
-            for v in vals: r = self.land(r, v) if isinstance(e.op, ast.And) else self.lor(r, v)
-            return r
+            # value semantics with short circuit: `a and b` is b if a is truthy else a
+            isand = isinstance(e.op, ast.And)
+            v = self.eval(e.values[0], env, g)
+            for nxt in e.values[1:]:
+                tv = self.truth(v)
+                if not is_sym(tv):
+                    if bool(tv) != isand:
+                        return v
+                    v = self.eval(nxt, env, g)
+                    continue
+                saved = self.cur
+                self.cur = self.land(saved, tv if isand else z3.Not(tv))
+                try:
+                    w = self.eval(nxt, env, g)
+                finally:
+                    self.cur = saved
+                if z3.is_bool(v) and (isinstance(w, bool) or (is_sym(w) and z3.is_bool(w))):
+                    v = self.land(v, w) if isand else self.lor(v, w)
+                    if not is_sym(v):
+                        v = bool(v)
+                else:
+                    v = self.ite(tv, w, v) if isand else self.ite(tv, v, w)
+            return v
         if isinstance(e, ast.Compare):
-            left = self.eval(e.left, env, g); r = True
+            left = self.eval(e.left, env, g)
+            r = True
             for op, c in zip(e.ops, e.comparators):
+                if r is False:
+                    break
                 right = self.eval(c, env, g)
-                r = self.land(r, self.cmp(op, left, right)); left = right
+                r = self.land(r, self.cmp(op, left, right))
+                left = right
             return r
         if isinstance(e, ast.IfExp):
-            c = to_bool(self.eval(e.test, env, g))
-            if not is_sym(c): return self.eval(e.body if c else e.orelse, env, g)
-            return ite(c, self.eval(e.body, env, g), self.eval(e.orelse, env, g))
+            c = self.truth(self.eval(e.test, env, g))
+            if is_sym(c):
+                k = const_of(c)
+                c = c if k is None else k
+            if not is_sym(c):
+                return self.eval(e.body if c else e.orelse, env, g)
+            saved = self.cur
+            try:
+                self.cur = self.land(saved, c)
+                a = self.eval(e.body, env, g)
+                self.cur = self.land(saved, z3.Not(c))
+                b = self.eval(e.orelse, env, g)
+            finally:
+                self.cur = saved
+            return self.ite(c, a, b)
         if isinstance(e, ast.Subscript):
             v = self.eval(e.value, env, g)
+            if is_sym(v) or isinstance(v, SymObj):
+                raise Unsupported("subscript of a scalar")
             if isinstance(e.slice, ast.Slice):
-                lo = self.eval(e.slice.lower, env, g) if e.slice.lower else None
-                hi = self.eval(e.slice.upper, env, g) if e.slice.upper else None
-                return v[lo:hi]
-            return v[self.eval(e.slice, env, g)]
+                sl = self.eval_slice(e.slice, env, g)
+                if isinstance(v, SymStr):
+                    return SymStr(v.chars[sl])
+                return v[sl]
+            i = self.eval(e.slice, env, g)
+            if is_sym(i):
+                raise Unsupported("symbolic index")
+            try:
+                if isinstance(v, SymStr):
+                    return SymStr([v.chars[i]])
+                return v[i]
+            except (IndexError, KeyError, TypeError) as ex:
+                raise PyRaise(ex)
         if isinstance(e, ast.Attribute):
             v = self.eval(e.value, env, g)
-            if is_sym(v): raise Unsupported("attr on symbolic")
-            return getattr(v, e.attr)
+            if isinstance(v, SymObj):
+                return v.get(e.attr)
+            if isinstance(v, SuperProxy):
+                mro = type.mro(v.obj.cls) if v.obj.cls is not None else []
+                for k in mro[mro.index(v.cls) + 1:]:
+                    if e.attr in k.__dict__ and inspect.isfunction(k.__dict__[e.attr]):
+                        return BoundMethod(k.__dict__[e.attr], v.obj)
+                raise Unsupported("super().%s" % e.attr)
+            if is_sym(v) or isinstance(v, (list, SymStr)):
+                raise Unsupported("attribute %s of a modelled value" % e.attr)
+            try:
+                return getattr(v, e.attr)
+            except AttributeError as ex:
+                raise PyRaise(ex)
         if isinstance(e, ast.Call):
-            if isinstance(e.func, ast.Attribute):
-                recv = self.eval(e.func.value, env, g)
-                if isinstance(recv, list):   # our model of list / bytearray
-                    a = [self.eval(x, env, g) for x in e.args]
-                    m = e.func.attr
-                    if m == 'insert': recv.insert(a[0], a[1]); return None
-                    if m == 'append': recv.append(a[0]); return None
-                    if m == 'reverse': recv.reverse(); return None
-                    if m == 'extend': recv.extend(a[0]); return None
-                    if m == 'pop': return recv.pop(*a)
-                    raise Unsupported("list method " + m)
-            f = self.eval(e.func, env, g)
-            args = [self.eval(a, env, g) for a in e.args]
-            kw = {k.arg: self.eval(k.value, env, g) for k in e.keywords}
-            if f is len: return len(args[0])
-            if f is range: return range(*args)
-            if f is bytearray: return list(args[0]) if args else []
-            if not inspect.isfunction(f) and not any(is_sym(x) for a in args for x in (a if isinstance(a, (list, tuple)) else [a])) and f not in (len, range, sum, zip, tuple, list):
-                return f(*args, **kw)   # concrete evaluation by CPython
-            if f is abs and is_sym(args[0]):
-                return z3.If(args[0] >= 0, args[0], -args[0])
-            if f in (zip, enumerate, sum, tuple, list, min, max, abs) and not any(is_sym(x) for a in args for x in (a if isinstance(a, (list, tuple)) else [a])):
-                return f(*args)
-            if f is sum:
-                r = 0
-                for x in args[0]: r = self.binop(ast.Add(), r, x)
-                return r
-            if f in (zip, tuple, list): return f(*args)
-            if inspect.isfunction(f): return self.call(f, args, kw)
-            raise Unsupported("call %r" % f)
-        if isinstance(e, ast.GeneratorExp) or isinstance(e, ast.ListComp):
-            (gen,) = e.generators
-            it = self.eval(gen.iter, env, g); out = []
-            for x in it:
-                sub = dict(env)
-                st = {'env': sub, 'g': g, 'ret': None, 'retc': False}
-                self.assign_target(gen.target, x, st, True)
-                out.append(self.eval(e.elt, sub, g))
-            return out
-        raise Unsupported(ast.dump(e)[:80])
+            return self.eval_call(e, env, g)
+        if isinstance(e, (ast.GeneratorExp, ast.ListComp)):
+            return self.comprehension(e, 0, env, g)
+        if isinstance(e, ast.JoinedStr):
+            raise Unsupported("f-string")
+        raise Unsupported("expression " + type(e).__name__)
 
-def run_all(make_interp, thunk, solver_timeout=10000):
-    """enumerate shape-paths: yields (assumptions, result) for every feasible decision vector"""
-    replay = []
+    def comprehension(self, e, k, env, g):
+        gen = e.generators[k]
+        if gen.is_async:
+            raise Unsupported("async comprehension")
+        it = self.eval(gen.iter, env, g)
+        if is_sym(it):
+            raise Unsupported("symbolic iterable")
+        if isinstance(it, SymStr):
+            it = it.items()
+        out = []
+        for x in it:
+            sub = dict(env)
+            self.assign_target(gen.target, x, {"env": sub, "g": g, "base": self.cur})
+            ok = True
+            for cond in gen.ifs:
+                c = self.truth(self.eval(cond, sub, g))
+                if is_sym(c):
+                    raise Unsupported("symbolic comprehension filter")
+                ok = ok and c
+            if not ok:
+                continue
+            if k + 1 < len(e.generators):
+                out.extend(self.comprehension(e, k + 1, sub, g))
+            else:
+                out.append(self.eval(e.elt, sub, g))
+        return out
+
+    def eval_call(self, e, env, g):
+        if isinstance(e.func, ast.Attribute):
+            recv = self.eval(e.func.value, env, g)
+            if isinstance(recv, list):
+                a = [self.eval(x, env, g) for x in e.args]
+                m = e.func.attr
+                if m in ("insert", "append", "reverse", "extend", "pop", "clear"):
+                    if self.cur is not True:
+                        raise _NeedFork("list mutation under a symbolic condition")
+                    if any(is_sym(x) for x in a[:1]) and m in ("insert", "pop"):
+                        raise Unsupported("symbolic list position")
+                    if m == "extend":
+                        recv.extend(list(a[0].chars) if isinstance(a[0], SymStr) else list(a[0]))
+                        return None
+                    try:
+                        return getattr(recv, m)(*a)
+                    except IndexError as ex:
+                        raise PyRaise(ex)
+                raise Unsupported("list method " + m)
+            if isinstance(recv, (SymStr, str)):
+                a = [self.eval(x, env, g) for x in e.args]
+                kw = {k.arg: self.eval(k.value, env, g) for k in e.keywords}
+                if isinstance(recv, SymStr) or has_sym(a) or has_sym(kw):
+                    return self.str_method(recv, e.func.attr, a, kw)
+                f = getattr(recv, e.func.attr)
+            else:
+                f = self.eval(e.func, env, g)
+        else:
+            f = self.eval(e.func, env, g)
+        args = []
+        for x in e.args:
+            if isinstance(x, ast.Starred):
+                v = self.eval(x.value, env, g)
+                if is_sym(v):
+                    raise Unsupported("star of a scalar")
+                args.extend(v)
+            else:
+                args.append(self.eval(x, env, g))
+        kw = {}
+        for k in e.keywords:
+            v = self.eval(k.value, env, g)
+            if k.arg is None:
+                if not isinstance(v, dict):
+                    raise Unsupported("** of a non-dict")
+                kw.update(v)
+            else:
+                kw[k.arg] = v
+        return self.apply(f, args, kw)
+
+    def apply(self, f, args, kw):
+        try:
+            h = self.intrinsics.get(f)
+        except TypeError:
+            h = None
+        if h is not None:
+            return h(self, args, kw)
+        sym = has_sym(args) or has_sym(kw)
+        if inspect.isfunction(f) and not sym and not (f.__module__ or "").startswith("ioflo"):
+            try:
+                return f(*args, **kw)    # concrete call of a non-ioflo python function
+            except Exception as ex:
+                raise PyRaise(ex)
+        if isinstance(f, BoundMethod) or inspect.isfunction(f):
+            return self.call(f, args, kw)
+        if f is builtins.super:
+            if len(args) == 2 and isinstance(args[1], SymObj):
+                return SuperProxy(args[0], args[1])
+            raise Unsupported("super() form")
+        if f is bytearray:
+            if not args:
+                return []
+            if isinstance(args[0], int) and not isinstance(args[0], bool):
+                return [0] * args[0]
+            if is_sym(args[0]):
+                raise Unsupported("bytearray(symbolic int)")
+            return list(args[0])
+        if f in (list, tuple) and args and isinstance(args[0], (list, tuple)):
+            return f(args[0])
+        if f is list and not args:
+            return []
+        if f is len:
+            if is_sym(args[0]):
+                raise PyRaise(TypeError("len of a number"))
+            return len(args[0])
+        if not sym:
+            if any(isinstance(a, list) for a in args) and f in (bytes,):
+                return bytes(args[0])
+            try:
+                return f(*args, **kw)    # concrete evaluation by CPython
+            except Exception as ex:
+                raise PyRaise(ex)
+        if f is abs:
+            return self.pyabs(args[0])
+        if f in (min, max):
+            vals = list(args[0]) if len(args) == 1 else list(args)
+            if kw:
+                raise Unsupported("min/max keywords")
+            return self.pyminmax("min" if f is min else "max", vals)
+        if f is sum:
+            r = args[1] if len(args) > 1 else 0
+            for x in args[0]:
+                r = self.binop(ast.Add(), r, x)
+            return r
+        if f in (zip, enumerate, reversed, range):
+            if f is range:
+                raise Unsupported("symbolic range")
+            return list(f(*args))
+        if f is any or f is all:
+            r = f is all
+            for x in args[0]:
+                r = self.land(r, self.truth(x)) if f is all else self.lor(r, self.truth(x))
+            return r
+        if f is bool:
+            return self.truth(args[0])
+        if f is int:
+            v = args[0]
+            if isinstance(v, SymStr):
+                return self.int_of_str(v, args[1] if len(args) > 1 else kw.get("base", 10))
+            if is_sym(v):
+                if z3.is_bv(v) or z3.is_int(v):
+                    return v
+                if z3.is_bool(v):
+                    return self.bool_to_num(v)
+            raise Unsupported("int() of %s" % (v.sort() if is_sym(v) else type(v).__name__))
+        if f is float:
+            v = args[0]
+            if is_sym(v):
+                if z3.is_fp(v) or z3.is_real(v):
+                    return v
+                if z3.is_int(v):
+                    return z3.ToReal(v)
+            raise Unsupported("float() of a symbolic %s" % (v.sort() if is_sym(v) else type(v).__name__))
+        if f is str:
+            return self.str_of(args[0])
+        if f is ord:
+            s = SymStr.of(args[0])
+            if len(s) != 1:
+                raise PyRaise(TypeError("ord of a string of length %d" % len(s)))
+            return self.widen8(s.code(0))
+        if f is isinstance:
+            raise Unsupported("isinstance of a symbolic value")
+        raise Unsupported("call of %r with symbolic arguments" % (f,))
+
+    # ---- small string model (hexify / unhexify / binize / unbinize)
+
+    def widen8(self, c):
+        return z3.ZeroExt(self.bvw - 8, c) if self.num == "bv" and self.bvw > 8 else c
+
+    def digit_char(self, v, base):
+        """character of digit value v (a BitVec >= 8 bits known to be in [0, base))"""
+        lo = z3.Extract(7, 0, v)
+        if base <= 10:
+            return lo + 48
+        return z3.If(z3.ULT(lo, 10), lo + 48, lo + 87)
+
+    def str_of(self, v):
+        if isinstance(v, (str, SymStr)):
+            return v
+        if not is_sym(v):
+            return str(v)
+        if not z3.is_bv(v):
+            raise Unsupported("str() of %s" % v.sort())
+        self.add_side("str(int) modelled for single decimal digits only", z3.And(v >= 0, v <= 9))
+        return SymStr([self.digit_char(v, 10)])
+
+    def hexval(self, c, label):
+        """(value as 8-bit term, is-hex-digit condition) of a character code"""
+        isd = z3.And(z3.UGE(c, 48), z3.ULE(c, 57))
+        isl = z3.And(z3.UGE(c, 97), z3.ULE(c, 102))
+        isu = z3.And(z3.UGE(c, 65), z3.ULE(c, 70))
+        return z3.If(isd, c - 48, z3.If(isl, c - 87, c - 55)), z3.Or(isd, isl, isu)
+
+    def int_of_str(self, s, base):
+        if self.num != "bv":
+            raise Unsupported("int(str) needs the bit-vector domain")
+        if base == 16:
+            r = None
+            for i in range(len(s)):
+                v, ok = self.hexval(s.code(i), "hex")
+                self.add_side("int(s, 16) on a non-hex character (ValueError)", ok)
+                v = self.widen8(v)
+                r = v if r is None else self.binop(ast.Add(), self.binop(ast.LShift(), r, 4), v)
+            if r is None:
+                raise PyRaise(ValueError("int('') base 16"))
+            return r
+        if base == 10 and len(s) == 1:
+            c = s.code(0)
+            self.add_side("int(ch) on a non-digit (ValueError)", z3.And(z3.UGE(c, 48), z3.ULE(c, 57)))
+            return self.widen8(c - 48)
+        raise Unsupported("int() of a symbolic string, base %r, length %d" % (base, len(s)))
+
+    def str_method(self, recv, m, a, kw):
+        if m == "format" and isinstance(recv, str):
+            if recv == "{0:02x}" and len(a) == 1 and not kw and is_sym(a[0]) and z3.is_bv(a[0]):
+                v = a[0]
+                self.add_side("'{0:02x}'.format modelled for 0..255 only", z3.And(v >= 0, v <= 255))
+                return SymStr([self.digit_char(z3.LShR(z3.Extract(7, 0, v), 4), 16),
+                               self.digit_char(z3.Extract(7, 0, v) & 15, 16)])
+            raise Unsupported("str.format %r with symbolic arguments" % recv)
+        if m == "join" and isinstance(recv, str):
+            out = []
+            for i, x in enumerate(a[0]):
+                if i and recv:
+                    out.extend(recv)
+                out.extend(SymStr.of(x).chars)
+            return SymStr(out)
+        if m == "replace" and len(a) == 2 and a[1] == "":
+            s, c = SymStr.of(recv), SymStr.of(a[0])
+            if len(c) != 1:
+                raise Unsupported("replace of a longer pattern")
+            out = []
+            for ch in s.chars:
+                # deleting a character changes the shape: fork on equality
+                if not self.decide(sym_char_eq(ch, c.chars[0])):
+                    out.append(ch)
+            return SymStr(out) if any(not isinstance(x, str) for x in out) else "".join(out)
+        raise Unsupported("str.%s on a symbolic string" % m)
+
+
+# --------------------------------------------------------------------------- shape-path enumeration
+
+class Path:
+    def __init__(self, assume, result, interp):
+        self.assume = assume
+        self.result = result
+        self.interp = interp
+
+    @property
+    def cond(self):
+        return z3.And(*self.assume) if self.assume else z3.BoolVal(True)
+
+
+def explore(make_interp, thunk, max_paths=4096):
+    """enumerate the shape paths of thunk(interp): returns [Path].  Feasibility of every
+    fork alternative is decided (by the interp's solver) when the fork is first met."""
+    script = []
     out = []
     while True:
-        I = make_interp(); I.replay = [list(x) for x in replay]; I.pos = 0
+        I = make_interp()
+        I.script = script
+        I.pos = 0
         res = thunk(I)
-        # feasibility of this path
-        s = z3.Solver(); s.set("timeout", solver_timeout); s.add(*I.assume); s.add(*I.defs)
-        r = s.check()
-        if str(r) == 'sat': out.append((list(I.assume), res, I))
-        elif str(r) != 'unsat': raise Unsupported("feasibility unknown")
-        replay = I.replay
-        while replay and replay[-1][2]: replay.pop()
-        if not replay: return out
-        replay[-1][1] = not replay[-1][1]; replay[-1][2] = True
+        out.append(Path(list(I.assume), res, I))
+        if len(out) > max_paths:
+            raise Unsupported("more than %d shape paths" % max_paths)
+        while script and script[-1][1]:
+            script.pop()
+        if not script:
+            return out
+        script[-1][0] = not script[-1][0]
+        script[-1][1] = True
+
+
+# --------------------------------------------------------------------------- session (solver, guards, result)
+
+def model_value(m, v):
+    return to_py(m.eval(v, model_completion=True))
+
+
+def jsonable(v):
+    """python value -> JSON-safe (Fractions as 'n/d', floats as hex strings, bools kept)"""
+    if isinstance(v, bool) or v is None or isinstance(v, (int, str)):
+        return v
+    if isinstance(v, float):
+        return "f:" + (v.hex() if v == v else "nan")
+    if isinstance(v, Fraction):
+        return "q:%d/%d" % (v.numerator, v.denominator)
+    if isinstance(v, (list, tuple)):
+        return [jsonable(x) for x in v]
+    if isinstance(v, dict):
+        return {str(k): jsonable(x) for k, x in v.items()}
+    return repr(v)
+
+
+def unjson(v):
+    if isinstance(v, str) and v.startswith("f:"):
+        return float("nan") if v == "f:nan" else float.fromhex(v[2:])
+    if isinstance(v, str) and v.startswith("q:"):
+        n, d = v[2:].split("/")
+        return Fraction(int(n), int(d))
+    if isinstance(v, list):
+        return [unjson(x) for x in v]
+    if isinstance(v, dict):
+        return {k: unjson(x) for k, x in v.items()}
+    return v
+
+
+class Session:
+    """One obligation's solver session.  Every query is timed and has a timeout; `unknown`
+    makes the obligation inconclusive.  A query counts as discharged only if
+      * its premises are satisfiable (vacuity guard a: the query without the negated claim is sat),
+      * a deliberately wrong oracle, when supplied, is refuted (vacuity guard b: sat),
+      * all side conditions of the translation (no bit-vector overflow, no raise, no
+        division by zero) are valid under the premises, and
+      * premises + not(claim) is unsat."""
+
+    def __init__(self, params, timeout_ms=20000, logic=None):
+        self.params = params
+        # logic: with push/pop z3's default solver falls back to its slow incremental core; for pure
+        # bit-vector work SolverFor("QF_BV") keeps an incremental SAT back end (measured: crc16 on 4
+        # bytes 0.15 s instead of 4.6 s, crc64 step solved instead of timing out)
+        self.solver = z3.SolverFor(logic) if logic else z3.Solver()
+        self.solver.set("timeout", int(timeout_ms))
+        self.timeout_ms = int(timeout_ms)
+        self.t0 = time.time()
+        self.budget = float(params.get("budget", 60))
+        self.seed = int(params.get("seed", 0) or 0)
+        self.checks = 0
+        self.stime = 0.0
+        self.res = dict(paths=0, confirmed=0, rejected=0, unknown=0, failed=0, exhausted=True, fails={},
+                        samples=[], validated=0, unknown_why="", stopped=None,
+                        extra=dict(guards_premise_sat=0, guards_wrong_oracle_sat=0, side_checks=0,
+                                   shape_paths=0, notes=[]))
+
+    # -- low level
+    def interp(self, **kw):
+        kw.setdefault("solver", self.solver)
+        return Interp(**kw)
+
+    def check(self, *cons):
+        t = time.time()
+        self.solver.push()
+        try:
+            self.solver.add(*cons)
+            r = str(self.solver.check())
+            m = self.solver.model() if r == "sat" else None
+            why = self.solver.reason_unknown() if r == "unknown" else ""
+        finally:
+            self.solver.pop()
+        self.checks += 1
+        self.stime += time.time() - t
+        return r, m, why
+
+    def over_budget(self):
+        return time.time() - self.t0 > self.budget
+
+    def note(self, text):
+        if text not in self.res["extra"]["notes"] and len(self.res["extra"]["notes"]) < 20:
+            self.res["extra"]["notes"].append(text)
+
+    def inconclusive(self, why):
+        self.res["unknown"] += 1
+        self.res["exhausted"] = False
+        if len(self.res["unknown_why"]) < 600:
+            self.res["unknown_why"] += ("; " if self.res["unknown_why"] else "") + why
+
+    def absorb(self, interp):
+        """account the feasibility checks an Interp made on the shared solver"""
+        self.checks += interp.solver_checks
+        self.stime += interp.solver_time
+        interp.solver_checks = 0
+        interp.solver_time = 0.0
+        for n in interp.notes:
+            self.note(n)
+
+    def fail(self, key, vals, detail):
+        f = self.res["fails"].get(key)
+        if f is None:
+            self.res["fails"][key] = dict(vals=jsonable(vals), detail=detail, count=1)
+        else:
+            f["count"] += 1
+        self.res["failed"] += 1
+
+    # -- the proof step
+    def prove(self, key, claim, assume=(), defs=(), side=(), wrong=None, vals=None, detail="",
+              concretize=None, what=""):
+        """Try to prove `claim` under assume+defs.  vals(model) -> dict of replayable inputs.
+        concretize(model) -> (vals, detail) or None turns an abstract candidate into concrete
+        replayable inputs (None: candidate not reproducible -> inconclusive)."""
+        self.res["paths"] += 1
+        if self.over_budget():
+            self.res["stopped"] = "budget"
+            self.inconclusive("budget exhausted before %s %s" % (key, what))
+            return "unknown"
+        prem = list(assume) + list(defs)
+        claim = claim if is_sym(claim) else z3.BoolVal(bool(claim))
+        # vacuity guards
+        guard_ok = False
+        if wrong is not None:
+            wrong = wrong if is_sym(wrong) else z3.BoolVal(bool(wrong))
+            r, m, why = self.check(*(prem + [z3.Not(wrong)]))
+            if r == "sat":
+                self.res["extra"]["guards_wrong_oracle_sat"] += 1
+                self.res["extra"]["guards_premise_sat"] += 1
+                guard_ok = True
+                if len(self.res["samples"]) < 2 and vals is not None:
+                    try:
+                        self.res["samples"].append(jsonable(vals(m)))
+                    except Exception:
+                        pass
+            elif r == "unsat":
+                self.inconclusive("vacuity guard: the deliberately wrong oracle was not refuted for %s %s" % (key, what))
+                return "unknown"
+            else:
+                self.inconclusive("vacuity guard unknown (%s) for %s %s" % (why, key, what))
+                return "unknown"
+        if not guard_ok:
+            r, m, why = self.check(*prem)
+            if r != "sat":
+                self.inconclusive("vacuity guard: premises %s for %s %s" % (r, key, what))
+                return "unknown"
+            self.res["extra"]["guards_premise_sat"] += 1
+            if len(self.res["samples"]) < 2 and vals is not None:
+                try:
+                    self.res["samples"].append(jsonable(vals(m)))
+                except Exception:
+                    pass
+        # side conditions of the translation
+        side = [(l, c) for (l, c) in side]
+        if side:
+            self.res["extra"]["side_checks"] += 1
+            r, m, why = self.check(*(prem + [z3.Not(z3.And(*[c for _, c in side]))]))
+            if r != "unsat":
+                bad = ""
+                if r == "sat":
+                    for l, c in side:
+                        if z3.is_false(m.eval(c, model_completion=True)):
+                            bad = l
+                            break
+                self.inconclusive("translation side condition %s (%s) for %s %s" % (
+                    "violated" if r == "sat" else "unknown", bad or why, key, what))
+                return "unknown"
+        # the query
+        r, m, why = self.check(*(prem + [z3.Not(claim)]))
+        if r == "unsat":
+            self.res["confirmed"] += 1
+            return "unsat"
+        if r == "sat":
+            if concretize is not None:
+                got = concretize(m)
+                if got is None:
+                    self.inconclusive("abstract counterexample for %s %s did not reproduce on the real code" % (key, what))
+                    return "unknown"
+                v, d = got
+                self.fail(key, v, d)
+            else:
+                v = vals(m) if vals is not None else {}
+                self.fail(key, v, (detail(m, v) if callable(detail) else detail) or what)
+            return "sat"
+        self.inconclusive("solver unknown (%s) for %s %s" % (why, key, what))
+        return "unknown"
+
+    def prove_exhaustive(self, paths, what="", given=()):
+        """the fork assumptions of the shape paths cover every input (of the domain `given`)"""
+        self.res["extra"]["shape_paths"] += len(paths)
+        for p in paths:
+            self.absorb(p.interp)
+        if len(paths) == 1 and not paths[0].assume:
+            return True
+        r, m, why = self.check(*(list(given) + [z3.Not(z3.Or(*[z3.And(*(p.assume + p.interp.defs)) if (p.assume or p.interp.defs)
+                                                            else z3.BoolVal(True) for p in paths]))]))
+        if r != "unsat":
+            self.inconclusive("shape paths not shown exhaustive (%s) %s" % (r, what))
+            return False
+        return True
+
+    # -- translator validation
+    def evaluate(self, paths, variables, values):
+        """value of the translated function on concrete inputs: substitute + simplify
+        (fresh quotients, if any, are resolved by the solver from their definitions)"""
+        sub = [(v, to_z3(c, v.sort())) for v, c in zip(variables, values)]
+        chosen = None
+        for p in paths:
+            ok = True
+            for a in p.assume:
+                t = z3.simplify(z3.substitute(a, *sub)) if sub else z3.simplify(a)
+                if z3.is_false(t):
+                    ok = False
+                    break
+                if not z3.is_true(t):
+                    r, _, _ = self.check(*([z3.substitute(x, *sub) for x in p.assume + p.interp.defs]))
+                    ok = r == "sat"
+                    break
+            if ok:
+                chosen = p
+                break
+        if chosen is None:
+            raise TranslationMismatch("no shape path admits input %r" % (values,))
+
+        def ev(t):
+            if isinstance(t, (list, tuple)):
+                return type(t)(ev(x) for x in t)
+            if isinstance(t, SymStr):
+                return "".join(c if isinstance(c, str) else chr(ev(c) & 0xff) for c in t.chars)
+            if not is_sym(t):
+                return t
+            u = z3.simplify(z3.substitute(t, *sub)) if sub else z3.simplify(t)
+            try:
+                return to_py(u)
+            except Unsupported:
+                r, m, _ = self.check(*[z3.substitute(x, *sub) for x in chosen.interp.defs])
+                if r != "sat":
+                    raise TranslationMismatch("definitions unsatisfiable for input %r" % (values,))
+                return to_py(m.eval(u, model_completion=True))
+        for lab, c in chosen.interp.side:
+            t = z3.simplify(z3.substitute(c, *sub)) if sub else z3.simplify(c)
+            if z3.is_false(t):
+                return ("side", lab)
+        return ev(chosen.result)
+
+    def validate(self, label, paths, variables, cases, real, norm=None):
+        """translator validation: term evaluated on each concrete case must equal real(*case)"""
+        for case in cases:
+            got = self.evaluate(paths, variables, case)
+            try:
+                exp = real(*case)
+            except Exception as e:       # the real function raises: the translation must flag the input
+                exp = ("raise", type(e).__name__)
+                if isinstance(got, tuple) and len(got) == 2 and got[0] == "side":
+                    self.res["validated"] += 1
+                    continue
+            if norm is not None:
+                exp = norm(exp)
+            if not same_value(got, exp):
+                raise TranslationMismatch("%s: input %r: translated term gives %r, real function gives %r"
+                                          % (label, case, got, exp))
+            self.res["validated"] += 1
+
+    def result(self):
+        r = self.res
+        r["solver_checks"] = self.checks
+        r["solver_time"] = round(self.stime, 3)
+        r["wall"] = round(time.time() - self.t0, 2)
+        if r["unknown"]:
+            r["exhausted"] = False
+        return r
+
+
+def run_obligation(body, logic=None, timeout_ms=20000):
+    """wrap an E2 obligation body(sess, params): Unsupported -> inconclusive (never silent),
+    TranslationMismatch propagates (harness error)."""
+    def fn(params):
+        sess = Session(params, timeout_ms=params.get("timeout_ms", timeout_ms), logic=logic)
+        try:
+            body(sess, params)
+        except Unsupported as e:
+            sess.inconclusive("Unsupported by the translator: %s" % e)
+            sess.res["stopped"] = "unsupported"
+        except PyRaise as e:
+            sess.inconclusive("translated code raises on a concrete path: %s" % e)
+            sess.res["stopped"] = "raise"
+        except _NeedFork as e:
+            sess.inconclusive("Unsupported by the translator: shape difference outside a forkable branch: %s" % e)
+            sess.res["stopped"] = "unsupported"
+        return sess.result()
+    fn.__name__ = getattr(body, "__name__", "e2")
+    return fn
+
+
+def rng(params, salt=0):
+    import random
+    return random.Random(int(params.get("seed", 0) or 0) * 1000003 + salt)
